@@ -146,6 +146,15 @@ def slices(tier):
             for k, pr, q2 in itertools.product(SF_KINDS, ["electron", "positron", "neutrino"], [10.0, 1e5])
             for xl, x in _xl("G6", "3")[:2]
         ]
+        # coupling linearity of the massive sector: the same observable under 10 electroweak configurations (EM; NC with all four beams, polarisation,
+        # sin2thetaW, MZ, propagator correction) must be  VV_h(c) U_VV + AA_h(c) U_AA  (heavy-flavour observables: every row)  resp.  w_q(c) U_1 + S(c) U_2
+        # (light observables: quark row q; gluon row S(c) U) with the PDG couplings of ref_ew - pins WHICH quark's couplings weight each parton's
+        # coefficient function beyond LO; the O(a_s) gluon row of the EM run is also compared with the closed-form photon-gluon-fusion coefficient
+        s["W_cpl"] = [
+            dict(_mk(k, h, "NC", sc, pto, "G6", q2, xl, x, "W"), cpl=1)
+            for k, (sc, h), pto, q2 in itertools.product(["F2", "FL"], [("FFNS3", "charm"), ("FFNS4", "bottom"), ("FFN03", "charm"), ("FFNS3", "light"), ("FONLL-FFNS4", "bottom")], [1, 2], [30.0])
+            for xl, x in _xl("G6", "3")[:2]
+        ]
         s["E_x1"] = [
             _mk(k, "total", p, sc, 1, "G6", 30.0, "one", 1.0, "E")
             for k, p, sc in itertools.product(SF_KINDS, PROCS, ["ZM-VFNS", "FFNS3"])
@@ -190,6 +199,13 @@ def slices(tier):
             for ew in ({"pol": -0.6, "prc": 0.1, "s2w": 0.4, "MZ": 50.0}, {"pol": 1.0, "prc": 0.0, "s2w": 0.1, "MZ": 200.0}, {"pol": 0.3, "prc": -0.2, "s2w": 0.23126, "MZ": 91.1876})
             for k, pr, q2 in itertools.product(SF_KINDS, ["electron", "positron", "neutrino", "antineutrino"], [2.0, 10.0, 30.0, 1e5])
             for xl, x in _xl("G6", "4")
+        ]
+        s["W_cpl"] = [
+            dict(_mk(k, h, "NC", sc, pto, g, q2, xl, x, "W"), cpl=1)
+            for g in ("G6", "L7")
+            for k, (sc, h), pto, q2 in itertools.product(["F2", "FL"], [("FFNS3", "charm"), ("FFNS3", "bottom"), ("FFNS4", "bottom"), ("FFNS5", "top"), ("FFN03", "charm"), ("FFN04", "bottom"), ("FFNS3", "light"), ("FFNS4", "light"), ("FONLL-FFNS4", "bottom"), ("FONLL-FFN03", "charm")], [1, 2], [10.0, 30.0, 2e4])
+            for xl, x in _xl(g, "3")
+            if not (g == "L7" and (pto == 2 or q2 != 30.0))
         ]
     return s
 
@@ -288,9 +304,142 @@ def _abs_nlo(st):
     return {"violations": viol, "nontrivial": bool(np.any(val != 0)), "outcome": yrun.res_digest(out[name][0]), "transitions": 1, "info": {"maxrel_abs_nlo": worst}}
 
 
+_CPL_CONFIGS = [
+    # (process, projectile, polarisation, sin2thetaW, MZ, propagator correction)
+    ("EM", "electron", 0.0, 0.23126, 91.1876, 0.0),
+    ("NC", "electron", 0.0, 0.23126, 91.1876, 0.0),
+    ("NC", "positron", 0.7, 0.23126, 91.1876, 0.0),
+    ("NC", "neutrino", 0.0, 0.23126, 91.1876, 0.0),
+    ("NC", "electron", -0.6, 0.4, 50.0, 0.0),
+    ("NC", "antineutrino", 0.0, 0.1, 91.1876, 0.0),
+    ("NC", "positron", -1.0, 0.35, 200.0, 0.0),
+    ("NC", "electron", 0.9, 0.23126, 91.1876, 0.1),
+    ("NC", "neutrino", 0.0, 0.45, 20.0, 0.0),
+    ("NC", "positron", 0.0, 0.15, 30.0, -0.2),
+]
+_HQ = {"charm": 4, "bottom": 5, "top": 6}
+_MASS = {4: 1.51, 5: 4.92, 6: 172.5}
+
+
+def _cpl(st):
+    """Coupling linearity of massive-scheme observables (see the slice comment) + closed-form O(a_s) gluon row of the EM run."""
+    from ..ref import ref_ew, ref_nlo
+
+    name = cards.obsname(st["kind"], st["heavyness"])
+    nf = cards.SCHEMES[st["scheme"]][1]
+    h = _HQ.get(st["heavyness"])
+    x, Q2 = st["x"], st["Q2"]
+    runs = []
+    ntrans = 0
+    for proc, proj, pol, s2w, MZ, prc in _CPL_CONFIGS:
+        cell = {"process": proc, "projectile": proj, "scheme": st["scheme"], "pto": st["pto"], "grid": st["grid"],
+                "theory": {"RenScaleVar": False, "FactScaleVar": False, "SIN2TW": s2w, "MZ": MZ}, "obscard": {"PolarizationDIS": pol, "PropagatorCorrection": prc}}
+        out, status = rel.try_run(cell, {name: [cards.kin(x, Q2)]})
+        ntrans += 1
+        if status != "ok":
+            return {"violations": [], "nontrivial": False, "outcome": status, "transitions": ntrans, "info": {"n_" + status.split(":")[0]: 1}}
+        runs.append(yrun.tensors(out[name][0]))
+    W = {q: [ref_ew.nc_weight(q, False, c[0], c[1], c[2], Q2, c[4], c[3], c[5]) for c in _CPL_CONFIGS] for q in range(1, 7)}
+    S = np.sum([W[q] for q in range(1, nf + 1)], axis=0)
+    viol = []
+    fp0 = {k: st[k] for k in ("kind", "heavyness", "scheme", "pto", "grid", "xlab")}
+    worst = 0.0
+    nontrivial = False
+    for k in range(1, st["pto"] + 1):
+        key = (k, 0, 0, 0)
+        if any(key not in r for r in runs):
+            if any(key in r for r in runs):
+                viol.append({"fp": dict(fp0, cls="cpl-key", key=list(key)), "fpkey": {"cls": "cpl-key", "kind": st["kind"], "heavyness": st["heavyness"]},
+                             "msg": f"{name} {st['scheme']} pto={st['pto']} x={x!r} Q2={Q2}: order key {key} present for some electroweak configurations only"})
+            continue
+        R = np.array([r[key][0] for r in runs])  # (configs, 14, n)
+        gmax = np.abs(R).max()
+        if gmax == 0.0:
+            continue
+        nontrivial = True
+        for i, pid in enumerate(yrun.PIDS):
+            rows = R[:, i, :]
+            if not np.any(rows != 0.0):
+                continue
+            if h is not None:
+                # heavy-flavour observable: whatever the parton, the boson couples to the heavy quark
+                sp = [ref_ew.nc_weight_split(h, c[0], c[1], c[2], Q2, c[4], c[3], c[5]) for c in _CPL_CONFIGS]
+                cols = [[a for a, _ in sp], [b for _, b in sp]]
+                what = f"VV_{h}(c) U_VV + AA_{h}(c) U_AA"
+            elif pid == 21:
+                cols = [S]
+                what = "sum_{q<=nf} w_q(c) U"
+            elif 1 <= abs(pid) <= nf:
+                cols = [W[abs(pid)], S]
+                what = f"w_{abs(pid)}(c) U_1 + sum_q w_q(c) U_2"
+            else:
+                cols = []
+                what = "0 (no coupling to this parton)"
+            if cols:
+                A = np.array(cols, dtype=float).T  # (configs, m)
+                coef, *_ = np.linalg.lstsq(A, rows, rcond=None)
+                resid = rows - A @ coef
+            else:
+                resid = rows
+            rs = np.abs(rows).max()
+            m = float(np.abs(resid).max() / rs)
+            worst = max(worst, m if rs > 1e-9 * gmax else 0.0)
+            if m > 1e-10 and rs > 1e-9 * gmax:
+                c_bad = int(np.argmax(np.abs(resid).max(axis=1)))
+                viol.append({"fp": dict(fp0, cls="cpl-linearity", pid=int(pid), key=list(key)), "fpkey": {"cls": "cpl-linearity", "kind": st["kind"], "heavyness": st["heavyness"], "scheme": st["scheme"], "gluon": bool(pid == 21), "order": k},
+                             "msg": f"{name} {st['scheme']} pto={st['pto']} x={x!r} ({st['xlab']}) Q2={Q2}: key {key} row pid={pid} over {len(_CPL_CONFIGS)} electroweak configurations is not {what} with the PDG couplings (relative residual {m:.3e}, worst configuration {_CPL_CONFIGS[c_bad]})"})
+        # equal rows: in a heavy-flavour observable every light quark and antiquark enters through the flavour singlet with the heavy quark's couplings
+        if h is not None and st["scheme"].startswith(("FFNS", "FFN0")):
+            lq = [yrun.PIDX[p] for q in range(1, nf + 1) for p in (q, -q)]
+            ref_row = R[:, lq[0], :]
+            for i in lq[1:]:
+                d = np.abs(R[:, i, :] - ref_row).max()
+                if d > 1e-12 * gmax:
+                    viol.append({"fp": dict(fp0, cls="cpl-singlet-rows", pid=int(yrun.PIDS[i]), key=list(key)), "fpkey": {"cls": "cpl-singlet-rows", "kind": st["kind"], "heavyness": st["heavyness"], "scheme": st["scheme"], "order": k},
+                                 "msg": f"{name} {st['scheme']} pto={st['pto']} x={x!r} Q2={Q2}: key {key} rows of light partons {yrun.PIDS[lq[0]]} and {yrun.PIDS[i]} differ by {d:.3e} (heavy-quark production sees light quarks only through the flavour singlet)"})
+                    break
+    # closed-form O(a_s) gluon row of the EM run (massive calculation only; F2 and FL)
+    worst_abs = 0.0
+    if h is not None and st["scheme"].startswith("FFNS") and (1, 0, 0, 0) in runs[0]:
+        val, err = runs[0][(1, 0, 0, 0)]
+        g, d, lg = cards.grid(st["grid"])
+        basis = ref_basis.RefBasis(g, d, lg)
+        eps = _MASS[h] ** 2 / Q2
+        trip = ref_nlo.hq_c2g(eps) if st["kind"] == "F2" else ref_nlo.hq_clg(eps)
+        zmax = 1.0 / (1.0 + 4.0 * eps)
+        eh2 = ref_ew.EQ[h] ** 2
+        ig = yrun.PIDX[21]
+        pred = np.zeros(basis.n)
+        perr = np.zeros(basis.n)
+        if 0 < x < zmax:
+            for j in range(basis.n):
+                sup = basis.support(j)
+                if x >= sup[1]:
+                    continue
+                v, e = ref_conv.convolve(trip[0], None, None, None, 0.0, lambda y, j=j: basis.p(j, y), x, sup, basis.x, extra_breaks=(zmax,))
+                pred[j] = eh2 * x * v
+                perr[j] = eh2 * x * e
+        sc = np.abs(pred).max() + np.abs(val[ig]).max()
+        dlt = np.abs(val[ig] - pred)
+        tol = RTOL[1] * (np.abs(pred) + sc) + 20 * (err[ig] + perr) + 1e-300
+        worst_abs = float((dlt / (np.abs(pred) + sc)).max()) if sc > 0 else 0.0
+        if np.any(dlt > tol):
+            j = int(np.argmax(dlt - tol))
+            viol.append({"fp": dict(fp0, cls="abs-hq-nlo"), "fpkey": {"cls": "abs-hq-nlo", "kind": st["kind"], "heavyness": st["heavyness"], "scheme": st["scheme"]},
+                         "msg": f"{name} EM {st['scheme']} x={x!r} ({st['xlab']}) Q2={Q2}: O(a_s) gluon row[j={j}] = {val[ig][j]:.10g}, e_h^2 x closed-form photon-gluon fusion (x) basis = {pred[j]:.10g} (|delta|={dlt[j]:.3e}, tol={tol[j]:.3e})"})
+        others = np.delete(val, [ig, yrun.PIDX[h], yrun.PIDX[-h]], axis=0)  # rows +-h carry the intrinsic heavy-quark kernels
+        if np.any(others != 0.0):
+            viol.append({"fp": dict(fp0, cls="abs-hq-nlo-rows"), "fpkey": {"cls": "abs-hq-nlo-rows", "kind": st["kind"], "heavyness": st["heavyness"], "scheme": st["scheme"]},
+                         "msg": f"{name} EM {st['scheme']} x={x!r} Q2={Q2}: the O(a_s) operator of heavy-quark pair production has non-zero light-quark rows (only the gluon and the intrinsic heavy quark enter at this order)"})
+    return {"violations": viol, "nontrivial": nontrivial, "outcome": digest([yrun.res_digest_t(r) if hasattr(yrun, "res_digest_t") else sorted((str(k), float(np.abs(v[0]).sum())) for k, v in r.items()) for r in runs]), "transitions": ntrans,
+            "info": {"maxrel_cpl_linearity": worst, "maxrel_abs_hq_nlo": worst_abs}}
+
+
 def execute(st):
     if st.get("abs"):
         return _abs_nlo(st)
+    if st.get("cpl"):
+        return _cpl(st)
     import yadism.coefficient_functions as cf
 
     yrun.reset_memos()
